@@ -1085,6 +1085,55 @@ func (x *gen) flagArg(args *[]string, name, value string) {
 	}
 }
 
+// cliFileTextOp: a word file given as TEXT — words separated by arbitrary non-empty runs of the
+// characters Go's unicode.IsSpace accepts, with or without leading and trailing runs — so that
+// the split opgen makes (strings.Fields) is compared with the model's (Spg.Fields.fields). The
+// words= list, from which the model takes strings.Title only, is what this generator put in.
+var spaceRuns = []string{" ", "\n", "\r\n", "\t", "\u00a0", "\u3000", "\u2028", "  \n\n", "\v", "\f", "\u0085", "\u1680", "\u2003",
+	"\u202f", "\u205f", "\u2029", " \t \r\n", "\u2000\u200a"}
+
+func (x *gen) cliFileTextOp() {
+	var words []string
+	for _, w := range x.wordList(false) {
+		if f := strings.Fields(w); len(f) == 1 && f[0] == w {
+			words = append(words, w)
+		}
+	}
+	if len(words) == 0 {
+		words = []string{"alpha", "beta"}
+	}
+	if len(words) > 8 {
+		words = words[:8]
+	}
+	text := ""
+	if x.g.chance(40) {
+		text += spaceRuns[x.g.intn(len(spaceRuns))]
+	}
+	for i, w := range words {
+		text += w
+		if i < len(words)-1 || x.g.chance(60) {
+			text += spaceRuns[x.g.intn(len(spaceRuns))]
+			if x.g.chance(25) {
+				text += spaceRuns[x.g.intn(len(spaceRuns))]
+			}
+		}
+	}
+	args := []string{"words", "--file", "@FILE"}
+	if x.g.chance(60) {
+		x.flagArg(&args, "size", []string{"1", "2", "3", "4"}[x.g.intn(4)])
+	}
+	if x.g.chance(50) {
+		x.flagArg(&args, "capitalize", []string{"none", "first", "all", "random", "one"}[x.g.intn(5)])
+	}
+	if x.g.chance(50) {
+		x.flagArg(&args, "separator", []string{"hyphen", "space", "comma", "period", "underscore", "digit", "none"}[x.g.intn(7)])
+	}
+	if x.g.chance(60) {
+		args = append(args, "--entropy")
+	}
+	x.emit("cli argv=%s words=%s titles=%s filetext=%s", encList(args), encList(words), encList(wordTitles(words)), encCps(text))
+}
+
 func (x *gen) cliOp() {
 	var args []string
 	extra := ""
@@ -1659,6 +1708,9 @@ func generate(prop, tier string, seed uint64) []string {
 		x.emit("chargen r=20/15/0/16/_/-/_ tape=%s", encWords(x.tape(61, 20, 4)))
 	case "C17":
 		rep(250, x.cliOp)
+		rep(120, x.cliFileTextOp)
+		x.emit("cli argv=%s words=- titles=- filetext=%s", encList([]string{"words", "--file", "@FILE"}), encCps(" \n\t\u3000"))
+		x.emit("cli argv=%s words=- titles=- filetext=_", encList([]string{"words", "--file", "@FILE", "--entropy"}))
 		// every class word in every role, against exclusions that do and do not contain it
 		for _, c := range []string{"uppercase", "lowercase", "digits", "symbols", "ambiguous"} {
 			for _, role := range []string{"--require", "--allow", "--exclude"} {
